@@ -285,6 +285,33 @@ func (s *sim) gossipSlot(slot uint64, blk *blockRec, parent *blockRec, hb *state
 	r := s.frng
 	g := s.gnode
 	msPerSlot := int64(spec.SECONDS_PER_SLOT) * 1000
+	// edgeClock: now and then an honest message is validated with the node's clock at an edge of the
+	// window the p2p specification allows for it (message slot .. message slot + span, each side
+	// widened by MAXIMUM_GOSSIP_CLOCK_DISPARITY = 500 ms): still inside, so the verdict stays ACCEPT.
+	// Returns a note for the report and the function that puts the clock back.
+	edgeClock := func(msgSlot uint64, span uint64) (string, func()) {
+		save := g.nowMs
+		restore := func() { g.nowMs = save }
+		switch r.Intn(9) {
+		case 0:
+			g.nowMs = int64(msgSlot)*msPerSlot - 400
+			if g.nowMs < 0 {
+				g.nowMs = save
+				return "", restore
+			}
+			s.res.Stat("fault_clock_edge", 1)
+			return " (node clock 400 ms before the message's slot: inside the disparity allowance)", restore
+		case 1:
+			g.nowMs = int64(msgSlot+span+1)*msPerSlot + 400
+			s.res.Stat("fault_clock_edge", 1)
+			return fmt.Sprintf(" (node clock 400 ms after the last slot of the %d-slot window: inside the disparity allowance)", span), restore
+		case 2:
+			g.nowMs = int64(msgSlot+span+1)*msPerSlot - 100
+			s.res.Stat("fault_clock_edge", 1)
+			return fmt.Sprintf(" (node clock 100 ms before the end of the last slot of the %d-slot window)", span), restore
+		}
+		return "", restore
+	}
 	g.head = w.head
 	g.nowMs = int64(slot)*msPerSlot + int64(r.Intn(int(msPerSlot)))
 	fin, _ := w.head.post.st.FinalizedCheckpoint()
@@ -554,10 +581,13 @@ func (s *sim) gossipSlot(slot uint64, blk *blockRec, parent *blockRec, hb *state
 			if g.seen[seenKey] {
 				exp = expTiming
 			}
+			edge, restore := edgeClock(slot, 32)
 			res, p := validate(func() gossipval.GossipValidatorResult {
 				_, x := gossipval.ValidateAttestation(ctx, subnet, att, g)
 				return x
 			})
+			restore()
+			what += edge
 			if pos == 0 || r.Chance(1, 4) {
 				s.wireCheck("attestation", spec.Wrap(att), func() sszPlain { return spec.Wrap(new(phase0.Attestation)) }, false, phase0.AttestationType(spec))
 			}
@@ -651,7 +681,10 @@ func (s *sim) gossipSlot(slot uint64, blk *blockRec, parent *blockRec, hb *state
 			if g.seen[fmt.Sprintf("aggr/%d/%d", epoch, vi)] {
 				exp = expTiming
 			}
+			edge, restore := edgeClock(slot, 32)
 			res, p := run(signed)
+			restore()
+			what += edge
 			s.wireCheck("aggregate_and_proof", spec.Wrap(signed), func() sszPlain { return spec.Wrap(new(phase0.SignedAggregateAndProof)) }, false, nil)
 			s.judge(g, "aggregate_and_proof", what, exp, res, p)
 			if !s.stop && exp == expAccept {
@@ -829,7 +862,10 @@ func (s *sim) gossipSlot(slot uint64, blk *blockRec, parent *blockRec, hb *state
 				if g.seen[fmt.Sprintf("sync/%d/%d/%d", vi, slot, subnet)] {
 					exp = expTiming
 				}
+				edge, restore := edgeClock(slot, 0)
 				res, p := run(subnet, m)
+				restore()
+				what += edge
 				s.wireCheck("sync_committee_message", m, func() sszPlain { return new(altair.SyncCommitteeMessage) }, true, altair.SyncCommitteeMessageType)
 				s.judge(g, "sync_committee", what, exp, res, p)
 			}
@@ -890,7 +926,10 @@ func (s *sim) gossipSlot(slot uint64, blk *blockRec, parent *blockRec, hb *state
 			if g.seen[fmt.Sprintf("contrib/%d/%d/%d", aggVI, slot, subnet)] {
 				exp = expTiming
 			}
+			edge, restore := edgeClock(slot, 0)
 			res, p := run(signed)
+			restore()
+			what += edge
 			s.wireCheck("sync_contribution_and_proof", spec.Wrap(signed), func() sszPlain { return spec.Wrap(new(altair.SignedContributionAndProof)) }, true, altair.SignedContributionAndProofType(spec))
 			s.judge(g, "sync_contribution", what, exp, res, p)
 			if !s.stop && exp == expAccept {
